@@ -11,6 +11,16 @@ PROPS = ["C16", "C17", "C19"]
 RLIMIT = 200
 
 
+COW_GLUE = r"""
+// what a Cow<str> holds, as in spec/concat_spec.rs (std: deref of Borrowed(b) is b, of Owned(o) is o.borrow())
+pub uninterp spec fn cow_target<'a, 'b, B: ?Sized + ToOwned>(c: &'b Cow<'a, B>) -> &'b B;
+pub assume_specification<'a, 'b, B: ?Sized + ToOwned>[<Cow<'a, B> as std::ops::Deref>::deref](c: &'b Cow<'a, B>) -> (r: &'b B)
+  ensures r == cow_target(c);
+pub open spec fn cow_str_bytes(c: &Cow<str>) -> Seq<u8> { match c { Cow::Borrowed(b) => b.spec_bytes(), Cow::Owned(s) => encode_utf8(s@) } }
+pub broadcast axiom fn axiom_cow_str_deref(c: &Cow<str>) ensures #[trigger] cow_target::<str>(c).spec_bytes() == cow_str_bytes(c);
+"""
+
+
 def build(u):
     u.header.insert(0, "#![feature(allocator_api, clone_to_uninit)]")
     for x in ["use vstd::string::StringSliceAdditionalSpecFns;", "use vstd::slice::SliceIndexSpec;", "use vstd::utf8::*;",
@@ -18,6 +28,7 @@ def build(u):
         u.use(x)
     u.spec("rope_spec.rs")
     u.spec("rope_build_spec.rs")
+    u.raw(COW_GLUE, ("glue", NAME))
     u.raw("broadcast use {vstd::string::group_string_axioms, rope_ax::axiom_str_len_bound};", ("glue", NAME))
     r = u.item("src/rope.rs", "pub(crate) enum Repr<'a> {")
     r.rule("V1", r"pub\(crate\) enum Repr", "pub enum Repr")
@@ -48,5 +59,16 @@ def build(u):
     f.buf.insert_at(bc + 1, ["    proof { assert(v.take(v.len() as int) =~= v); }"], f._org("Rope::from_iter.hint.end", "hint", FN, None))
     f.body_start(FN, "canary.Rope::from_iter", "canary", "proof { assert(false); }")
     f.loop_body_start(FN, 1, "canary.Rope::from_iter.loop1", "canary", "proof { assert(false); }")
+    # ---- From<&String> / From<&Cow<str>>: the single-piece rope over that string (the contracts unit concat_views uses, rule D6f) ----
+    fs = u.method("src/rope.rs", "impl<'a> From<&'a String> for Rope<'a> {", "from")
+    fs.rule("D1", r"fn from\(", "fn from_string(")
+    fs.sig("from_string", [("Rope::from_string.ensures", "contract", "ensures r.wf(), r.bytes() == encode_utf8(value@)")], ret="r")
+    fs.body_start("from_string", "Rope::from_string.hint", "hint", "broadcast use {vstd::string::group_string_axioms, vstd::utf8::group_utf8_lib};")
+    fs.body_start("from_string", "canary.Rope::from_string", "canary", "proof { assert(false); }")
+    fc = u.method("src/rope.rs", "impl<'a> From<&'a Cow<'a, str>> for Rope<'a> {", "from")
+    fc.rule("D1", r"fn from\(", "fn from_cow(")
+    fc.sig("from_cow", [("Rope::from_cow.ensures", "contract", "ensures r.wf(), r.bytes() == cow_str_bytes(value)")], ret="r")
+    fc.body_start("from_cow", "Rope::from_cow.hint", "hint", "broadcast use axiom_cow_str_deref;")
+    fc.body_start("from_cow", "canary.Rope::from_cow", "canary", "proof { assert(false); }")
     u.raw("}", ("glue", NAME))
-    u.contracted += [("<Rope as FromIterator<&str>>::from_iter", "src/rope.rs")]
+    u.contracted += [("<Rope as FromIterator<&str>>::from_iter", "src/rope.rs"), ("<Rope as From<&String>>::from", "src/rope.rs"), ("<Rope as From<&Cow<str>>>::from", "src/rope.rs")]
